@@ -396,6 +396,10 @@ class Model(Object):
         new.notes = deepcopy(self.notes)
         new.annotation = deepcopy(self.annotation)
         new._compartments = self._compartments.copy()
+        # it doesn't make sense to retain the context of a copied model so
+        # assign a new empty context; this has to happen before the copy is
+        # populated, otherwise building it is recorded in the original's context
+        new._contexts = []
 
         new.metabolites = DictList()
         do_not_copy_by_ref = {"_reaction", "_model"}
@@ -481,10 +485,6 @@ class Model(Object):
             # Cplex has an issue with deep copies
         except Exception:  # pragma: no cover
             new._solver = copy(self.solver)  # pragma: no cover
-
-        # it doesn't make sense to retain the context of a copied model so
-        # assign a new empty context
-        new._contexts = []
 
         return new
 
